@@ -5,6 +5,7 @@ import (
 	"context"
 	"encoding/json"
 	"io"
+	"math"
 	"net/http"
 	"net/url"
 	"strings"
@@ -187,6 +188,10 @@ var hAccepts = []hAccept{
 	{"text/html, application/json;q=0.9", hJSON},
 	{"application/graphql-response+json;charset=utf-8, application/json", hGRJ},
 	{";;garbage", hGRJ},
+	// media types are case-insensitive
+	{"Application/JSON", hJSON},
+	{"Application/GraphQL-Response+JSON, application/json", hGRJ},
+	{"APPLICATION/JSON; Charset=UTF-8", hJSON},
 }
 
 type hRespHdr struct {
@@ -446,6 +451,10 @@ func hBodiesRun(checkCT bool) {
 		r.Method = "POST"
 		r.Header.Set("Content-Type", "application/graphql")
 		r.Body = io.NopCloser(strings.NewReader(hBodies[zzsym.Choice("body", len(hBodies))]))
+	}
+	if r.Method == "POST" {
+		// the length the client declares is its own claim: absent, unknown, or grossly overstated
+		r.ContentLength = []int64{0, -1, math.MaxInt64}[zzsym.Choice("declaredLength", 3)]
 	}
 	w := newHWriter()
 	srv.ServeHTTP(w, r)
